@@ -244,6 +244,56 @@ Theorem C12_server_view_equals_client :
 Proof. exact server_view_equals_client. Qed.
 Print Assumptions C12_server_view_equals_client.
 
+(* ---- the attached proxy as state: histories of proxy operations -----------------------------
+   pop: Session.NewProxy (PAttach), Proxy.Replace with another profile and address (PReplace),
+   Proxy.Close (PClose), the side effect of writing a message (PWrite: an inactive record is
+   dropped), and the MvProxy task (PTask o = o, then the infoProxy echo when o succeeded);
+   run_pops s h = the client session after the history h.  After ANY history every kind is read
+   back by both readers over every split with exactly the CURRENT record's name, bind address and
+   profile bytes. *)
+Theorem C12_proxy_history_roundtrip :
+  forall k s h r, wf k s = true -> wf_proxy_opt (s_proxy s) = true -> forallb wf_pop h = true ->
+  reads_back (read_info flat_ops k r) (read_info stream_ops k r) (write_info k (run_pops s h))
+             (absorb k (run_pops s h) r, carried_proxies k (run_pops s h)).
+Proof. exact proxy_history_roundtrip. Qed.
+Print Assumptions C12_proxy_history_roundtrip.
+
+(* what the current record is after each operation (f = with profile bytes: hello, migrate, refresh;
+   without: the proxy update) - Replace keeps the name and takes the NEW address and the NEW profile *)
+Theorem C12_proxies_after_attach :
+  forall f s n a p, s_client s = true -> s_proxy s = None ->
+  proxies_of f (run_pop s (PAttach n a p)) = [mkPData n a (if f then p else [])] /\
+  proxies_of f (run_pop s (PTask (PAttach n a p))) = [mkPData n a (if f then p else [])].
+Proof. exact proxies_after_attach. Qed.
+Print Assumptions C12_proxies_after_attach.
+
+Theorem C12_proxies_after_replace :
+  forall f s px a p, s_proxy s = Some px -> p_active px = true ->
+  proxies_of f (run_pop s (PReplace a p)) = [mkPData (p_name px) a (if f then p else [])] /\
+  proxies_of f (run_pop s (PTask (PReplace a p))) = [mkPData (p_name px) a (if f then p else [])].
+Proof. exact proxies_after_replace. Qed.
+Print Assumptions C12_proxies_after_replace.
+
+Theorem C12_proxies_after_close :
+  forall f s, proxies_of f (run_pop s PClose) = [] /\ proxies_of f (run_pop s (PTask PClose)) = [].
+Proof. exact proxies_after_close. Qed.
+Print Assumptions C12_proxies_after_close.
+
+Theorem C12_proxies_after_write :
+  forall f s k, proxies_of f (run_pop s (PWrite k)) = proxies_of f s.
+Proof. exact proxies_after_write. Qed.
+Print Assumptions C12_proxies_after_write.
+
+Example C12_nonvacuous_history :
+  let s0 := set_proxy ex_session None in
+  forallb wf_pop ex_history = true /\ wf infoHello s0 = true /\
+  carried_proxies infoHello (run_pops s0 ex_history) =
+    [mkPData [112;120] [108;111;99;97;108;104;111;115;116;58;48] [160;0;2;121;122;208]] /\
+  carried_proxies infoProxy (run_pops s0 ex_history) = [mkPData [112;120] [108;111;99;97;108;104;111;115;116;58;48] []] /\
+  carried_proxies infoHello (run_pops s0 (ex_history ++ [PTask PClose])) = [].
+Proof. exact ex_history_ok. Qed.
+Print Assumptions C12_nonvacuous_history.
+
 (* ---- non-vacuity ---------------------------------------------------------------------------
    a concrete client session (two interfaces, a 300-byte host name, kill date, work hours, an
    active proxy, keys) satisfies wf for all six kinds and exact_settings; its settings differ from
